@@ -144,8 +144,20 @@ func solveQuery(asserts []*Term, comments []string, file string, timeout time.Du
 	var best Result
 	best.status = "timeout"
 	var got []Result
+	var grace <-chan time.Time
 	for i := 0; i < len(use); i++ {
-		a := <-ch
+		var a ans
+		select {
+		case a = <-ch:
+		case <-grace:
+			// cross-checking mode: the other back ends had their extra time after the first answer
+			cancel()
+			grace = nil
+			a = <-ch
+		}
+		if all && grace == nil && (a.r.status == "unsat" || a.r.status == "sat") && best.status != "unsat" && best.status != "sat" {
+			grace = time.After(8 * time.Second)
+		}
 		got = append(got, a.r)
 		if a.r.status == "unsat" || a.r.status == "sat" {
 			if best.status != "unsat" && best.status != "sat" {
